@@ -441,14 +441,22 @@ class History:
 
     # ---- poses
     def fbits(self): return self.rng.choice(gen_types.F32_BITS + [self.rng.randrange(2 ** 32)] * 2)
-    def position(self):
+    def position(self, eid=None):
         if 'Position' not in self.ids: return
-        eid = self.some_id()
+        eid = self.some_id() if eid is None else eid
         pos = [self.fbits() for _ in range(3)]; ypr = [self.fbits() for _ in range(3)]
         payload = struct.pack('<ii', eid, 5) + b''.join(map(f32b, pos)) + bytes(12) + b''.join(map(f32b, ypr)) + b'\x00'
         self.emit('Position', payload, 'position')
         if eid in self.ents and self.dialect != 'wowp':
             p = self.ents[eid]['pose']; p['position'] = ('v', pos); p['yaw'] = ('f', ypr[0]); p['pitch'] = ('f', ypr[1]); p['roll'] = ('f', ypr[2])
+
+    def pose_recreate_pose(self):
+        """Position(E); EntityCreate(E) again; Position(E) - back to back, no packet for another entity in between: anything that remembers the
+        entity OBJECT of the last position packet (instead of looking the id up) moves the orphaned old object"""
+        cands = [e for e in self.ents if e >= 0]
+        if not cands or 'EntityCreate' not in self.ids: return self.position()
+        eid = self.rng.choice(cands); tname = self.ents[eid]['type']
+        self.position(eid); self.create_entity(eid, tname if self.rng.random() < 0.7 else None); self.position(eid)
 
     def player_position(self):
         if 'PlayerPosition' not in self.ids: return self.position()
@@ -552,7 +560,7 @@ class History:
         if self.dialect == 'wowp':
             ops = [(self.update_prop, 10), (self.call_method, 10), (self.position, 5), (self.noise, 10), (self.base_player, 3), (lambda: self.call_method(True), self.garbage_w)]
         else: ops = [(self.create_entity, 6), (self.update_prop, 22), (self.call_method, 18), (self.nested, 22), (self.position, 8),
-               (self.player_position, 6), (self.noise, 8), (self.base_player, 1), (self.cell_player, 1), (lambda: self.call_method(True), self.garbage_w)]
+               (self.player_position, 6), (self.pose_recreate_pose, 3), (self.noise, 8), (self.base_player, 1), (self.cell_player, 1), (lambda: self.call_method(True), self.garbage_w)]
         tot = sum(w for _, w in ops)
         while len(self.packets) < n:
             if self.rng.random() < self.fault_rate: self.fault(); continue
@@ -613,7 +621,9 @@ def run_library(dialect, defs_dir, stream, strict=False, regs=None, snap_eid=Non
     rec.snap_eid = snap_eid
     raised = None
     try:
-        try: pl.play(stream, strict)
+        try:
+            with common.time_limit(max(30.0, len(stream) / 5000.0)): pl.play(stream, strict)
+        except common.HangError: raised = 'HANG'
         except Exception as e: raised = impl.err_name(e)
         lib = list(rec.trace); lib.append('RAISED ' + raised if raised else 'DONE')
         c = pl._battle_controller
@@ -740,6 +750,21 @@ class SweepHistory(History):
                     new = [self.val(et) for _ in range(k)]
                     nested(root + [(0, 1), (i, ws), (j, ws)], b''.join(gen_types.wire_of(et, x) for x in new), True, 'nested-slice')
                     lst[i:j] = new
+        # lists that have GROWN past 256 elements (a property value arrives with at most 254; slice packets can make it longer): index and slice
+        # bounds then need 9 bits and more
+        if et in (('u', 1), ('u', 2)):
+            lst = [self.val(et) for _ in range(254)]
+            setprop('lst', lst)
+            for _ in range(2):
+                n = len(lst); ws = bits_required(n + 1); new = [self.val(et) for _ in range(40)]
+                nested(root + [(0, 1), (n, ws), (n, ws)], b''.join(gen_types.wire_of(et, x) for x in new), True, 'nested-slice-grow'); lst[n:n] = new
+            for i in (0, 255, 256, 257, 300, len(lst) - 1):
+                n = len(lst); nv = self.val(et)
+                nested(root + [(0, 1), (i, bits_required(n))], gen_types.wire_of(et, nv), False, 'nested-set-big'); lst[i] = nv
+            for (i, j, k) in ((256, 258, 1), (255, 257, 0), (300, 300, 2), (0, 1, 0), (257, 400, 3)):
+                n = len(lst); ws = bits_required(n + 1); new = [self.val(et) for _ in range(k)]
+                if max(i, j) >= (1 << ws): continue
+                nested(root + [(0, 1), (i, ws), (j, ws)], b''.join(gen_types.wire_of(et, x) for x in new), True, 'nested-slice-big'); lst[i:j] = new
         # depth 2 and 3
         di = names.index('dct'); dt = props[di][1]
         dv = {nm: ([self.val(ft[1]) for _ in range(3)] if ft[0] == 'array' else self.val(ft)) for nm, ft in dt[1]}
